@@ -94,7 +94,17 @@ def gen_section(rng, max_image, allow_ignored=True):
     return sec
 
 
-def gen_spec(rng, max_image=2000, marker=None):
+UNKNOWN_TTS = [0x10, 0x50, 0x60, 0xB0, 0xFD]     # outside every known tag-type range
+UNMAPPED_FIRST = [0x36, 0x71, 0x85, 0x41]        # inside a known range but not the base type of a section
+for _t in UNKNOWN_TTS + UNMAPPED_FIRST:
+    PAGES[_t] = 1
+
+
+def is_unknown(tt):
+    return tt not in TAGTYPES
+
+
+def gen_spec(rng, max_image=2000, marker=None, p_unknown=0.0):
     nsec = rng.choice([1, 1, 2, 2, 3, 4])
     fw = None
     r = rng.random()
@@ -108,11 +118,24 @@ def gen_spec(rng, max_image=2000, marker=None):
     secs = [gen_section(rng, max_image) for _ in range(nsec)]
     if all(TAGTYPES[x["tt"]] is None for x in secs):
         secs.append(gen_section(rng, max_image, allow_ignored=False))
+    if rng.random() < p_unknown:
+        # a section whose tag type BF3 cannot represent: the whole file must be rejected
+        bad = gen_section(rng, min(max_image, 300), allow_ignored=False)
+        if rng.random() < 0.5:
+            bad["tt"] = rng.choice(UNKNOWN_TTS)
+            secs.insert(rng.randint(0, len(secs)), bad)
+        else:
+            bad["tt"] = rng.choice(UNMAPPED_FIRST)
+            secs.insert(0, bad)
+        bad["groups"] = "one"
+        bad["select"] = None
+        bad["select_if"] = "BRP"
+        bad["reboot"] = False
     # instructions persist between sections in BF2: once a kind of instruction has been stated,
     # every later non-ignored section states its own (so the truth never depends on persistence)
     seen_sel = seen_if = False
     for sec in secs:
-        info = TAGTYPES[sec["tt"]]
+        info = TAGTYPES.get(sec["tt"])
         if info is None:
             continue
         if seen_sel and not sec["select"]:
@@ -201,7 +224,7 @@ def render_items(spec):
             items.append(("marker", si, ":0000FF00", None))
         if sec["crc"]:
             items.append(("instr", si, "##CRC: 0x" + sec["crc"], None))
-        if sec["reboot"] and TAGTYPES[sec["tt"]] is not None:
+        if sec["reboot"] and TAGTYPES.get(sec["tt"]) is not None:
             items.append(("instr", si, "#>REBOOT", None))
     return items
 
@@ -235,7 +258,7 @@ def truth(spec):
     """expected components in output order: list of {si, type, fmt, tags(dict), payload}"""
     comps = []
     for si, sec in enumerate(spec["sections"]):
-        info = TAGTYPES[sec["tt"]]
+        info = TAGTYPES.get(sec["tt"])
         if info is None:
             continue
         ctype, hw, fmt, intf = info
@@ -298,7 +321,7 @@ def spec_shrinks(spec):
     for i, s in enumerate(secs):
         for k in ("select", "select_if", "fwver", "crc"):
             if s[k]:
-                if k == "select_if" and TAGTYPES[s["tt"]] and TAGTYPES[s["tt"]][0] == 0:
+                if k == "select_if" and TAGTYPES.get(s["tt"]) and TAGTYPES[s["tt"]][0] == 0:
                     continue
                 yield dict(spec, sections=secs[:i] + [dict(s, **{k: None})] + secs[i + 1:])
         if s["reboot"]:
